@@ -259,6 +259,27 @@ FAULTS = {"none": None, "transient": "transient", "permanent": "permanent", "los
 KNOWN_KEY = "s3-release-get-then-unconditional-delete-after-takeover"
 
 
+class _OneTick:
+    """Stand-in for S3LockProviderBase._stop_heartbeat during one heartbeat tick: wait() = 'interval elapsed, not stopped'
+    once, 'stopped' afterwards (the loop `while not self._stop_heartbeat.wait(interval)` runs its body exactly once)."""
+
+    def __init__(self) -> None:
+        self.n = 0
+
+    def wait(self, timeout: Any = None) -> bool:
+        self.n += 1
+        return self.n > 1
+
+    def is_set(self) -> bool:
+        return self.n > 1
+
+    def set(self) -> None:
+        self.n = max(self.n, 2)
+
+    def clear(self) -> None:
+        pass
+
+
 class S3Run:
     def __init__(self, lease_s: int = 60):
         self.sched = Scheduler(Clock(0))
@@ -393,6 +414,11 @@ class S3Run:
                     self.problems.append({"oracle": "s3-is-held-true-without-own-body", "client": c})
                 if self.superseded.get(c):
                     self.problems.append({"oracle": "s3-superseded-holder-reports-held", "client": c})
+                # judged on the store itself at the moment of the answer (no primitive lies between is_held()'s last read and its return)
+                body = self.s3.obj["body"].decode() if self.s3.obj else None
+                if self.owner_of(body) != c:
+                    self.problems.append({"oracle": "s3-is-held-true-but-object-not-mine", "client": c, "object_owner": self.owner_of(body),
+                                          "t": self.sched.clock.now, "last_write_seen_by_client": self.last_ok_write.get(c)})
                 return "STrue"
             self.stats["held_false"] += 1
             return "SFalse"
@@ -445,21 +471,41 @@ class S3Run:
         return self._canon(c, o) + (res,)
 
     def _renew(self, c: int, fault: Any) -> Tuple[Any, ...]:
+        """One TICK of the heartbeat thread: one iteration of the REAL S3LockProviderBase._heartbeat_loop -- its wait returns
+        'not stopped' once and 'stopped' the next time -- so that everything the loop does around _renew_once() (the is_locked
+        guard, swallowing an exception, whatever it records about the renewal) is the library's own code.  The renewal's one S3
+        request takes the injected fault; clock reads of the loop are let through (counted, not part of the observation)."""
         p = self.prov.get(c)
-        if p is None or not getattr(p, "_verif_hb", False) or not p.is_locked:
-            return ("nop", "SNone")      # _heartbeat_loop: not started / stopped / `if not self.is_locked: break`
+        if p is None or not getattr(p, "_verif_hb", False):
+            return ("nop", "SNone")      # heartbeat thread not started / stopped by release()
         aid = ("hb", c)
-        a = self.sched.start(aid, p._renew_once)
-        if a.state == "done":
-            return ("nop", "SNone")      # _etag is None: return
-        before = len(self.sched.trace)
-        self.sched.step(aid, fault)
-        o = self._obs_of(c, before)
-        if a.state != "done":
-            self.problems.append({"oracle": "harness-renew-more-than-one-request", "client": c})
+        saved = p._stop_heartbeat
+        p._stop_heartbeat = _OneTick()
+        try:
+            before = len(self.sched.trace)
+            a = self.sched.start(aid, p._heartbeat_loop)
+            steps = 0
+            while a.state == "parked" and steps < 12:
+                steps += 1
+                self.sched.step(aid, fault if a.pending[0] == "s3" else None)
+            if a.state == "parked":
+                self.sched.kill(aid)
+                self.problems.append({"oracle": "harness-heartbeat-tick-did-not-finish", "client": c, "pending": repr(a.pending)})
+        finally:
+            p._stop_heartbeat = saved
+        new = [x for x in self.sched.trace[before:]]
+        reqs = [x for x in new if x[1] == "s3"]
+        self.stats["hb_ticks"] = self.stats.get("hb_ticks", 0) + 1
+        self.stats["hb_other_primitives"] = self.stats.get("hb_other_primitives", 0) + len(new) - len(reqs)
         if a.exc is not None:
-            self.problems.append({"oracle": "s3-renew-raised", "client": c, "exc": repr(a.exc)})
-        return self._canon(c, o) + ("SNone",)
+            self.problems.append({"oracle": "s3-heartbeat-loop-raised", "client": c, "exc": repr(a.exc)})
+        if not reqs:
+            return ("nop", "SNone")      # `if not self.is_locked: break`, or _renew_once: _etag is None: return
+        if len(reqs) != 1:
+            self.problems.append({"oracle": "harness-renew-more-than-one-request", "client": c, "got": [list(x) for x in reqs]})
+        if fault in ("transient", "lost") and p.is_locked:
+            self.stats["hb_failed_ticks_still_locked"] = self.stats.get("hb_failed_ticks_still_locked", 0) + 1
+        return self._canon(c, reqs[0][1:]) + ("SNone",)
 
     def _canon(self, c: int, o: Tuple[Any, ...]) -> Tuple[Any, ...]:
         if o[0] == "s3":
